@@ -137,7 +137,7 @@ def selftest():
     out = os.path.join(BUILD, 'selftest')
     os.makedirs(BUILD, exist_ok=True)
     src = os.path.join(ROOT, 'ref', 'selftest.cpp')
-    h = sha_files([src, os.path.join(ROOT, 'ref', 'refchess.h'), os.path.join(ROOT, 'gen', 'posgen.h'), os.path.join(ROOT, 'gen', 'tape.h')])
+    h = sha_files([src, os.path.join(ROOT, 'ref', 'refchess.h'), os.path.join(ROOT, 'gen', 'posgen.h'), os.path.join(ROOT, 'gen', 'tape.h'), os.path.join(ROOT, 'ref', 'refpolyglot.h'), os.path.join(ROOT, 'ref', 'polyglot_random.h')])
     exe = out + '-' + h
     if not os.path.exists(exe):
         r = run_cmd([GXX, '-O2', '-std=c++20', src, '-o', exe])
@@ -194,6 +194,25 @@ def replay_once(exe, prop, path, extra_opts=(), timeout=600):
         return r.returncode, r.stdout
     except subprocess.TimeoutExpired as e:
         return 124, 'timeout'
+
+
+def crash_signature(output):
+    """crash:<sanitizer kind>:<first frame inside /repo>"""
+    kind = 'unknown'
+    m = re.search(r'ERROR: AddressSanitizer: ([\w-]+)', output)
+    if m:
+        kind = m.group(1)
+    else:
+        m = re.search(r'runtime error: ([^\n]{0,80})', output)
+        if m:
+            kind = 'ubsan:' + re.sub(r'0x[0-9a-f]+|\d+', 'N', m.group(1)).strip().replace(' ', '_')[:60]
+        else:
+            m = re.search(r'ERROR: (\w+Sanitizer): ([\w-]+)', output)
+            if m:
+                kind = m.group(2)
+    fm = re.search(r'(/repo/[\w/.]+):(\d+)', output)
+    frame = (os.path.basename(fm.group(1)) + ':' + fm.group(2)) if fm else 'noframe'
+    return 'crash:%s:%s' % (kind, frame)
 
 
 def read_sig(path):
@@ -307,6 +326,8 @@ def run_rc_property(pid, cfg, tier, seed, t0):
             if c != 0:
                 fails += 1
         sig = read_sig(dest)
+        if sig == 'crash':
+            sig = crash_signature(last)
         if fails < 3:
             unreproduced.append(dict(replay=dest, reproduced=fails, signature=sig))
             continue
